@@ -364,7 +364,14 @@ def freq_shift(z, /, shift):
 
     x = np.fft.fftshift(pb.fft.fft(z.data * ph, axis=0), axes=(0,))
 
-    it = np.nditer(np.broadcast_to(ft * len(x), z.sample_shape), flags=["multi_index"])
+    # Number of bins shifted; snapped to a whole number if within rounding error
+    # of one (3 Hz * (1 / 5 Hz) * 5 = 3.0000000000000004 is a whole-bin shift)
+    nbins = ft * len(x)
+    whole = np.round(nbins)
+    snap = np.abs(nbins - whole) <= 8 * np.finfo(float).eps * np.abs(nbins)
+    nbins = np.where(snap, whole, nbins)
+
+    it = np.nditer(np.broadcast_to(nbins, z.sample_shape), flags=["multi_index"])
     for a in it:
         if a < 0:
             a = int(np.floor(a))
